@@ -30,3 +30,13 @@ func (e *Enc) strAt(id, off, i Term) Term {
 	}
 	return app(SInt, "sidx", id, off, i)
 }
+
+// isErrorSentinel: global prefix "G_<pkg>.<Name>" of a standard-library error sentinel.
+func isErrorSentinel(prefix string) bool {
+	for _, p := range []string{"G_io.EOF", "G_io.ErrUnexpectedEOF", "G_strconv.ErrRange", "G_strconv.ErrSyntax", "G_io.ErrShortWrite", "G_io.ErrNoProgress"} {
+		if prefix == p {
+			return true
+		}
+	}
+	return false
+}
